@@ -18,6 +18,8 @@ IMPORTS = ('phylib.io.merge',)
 STEPS = ['write_params', 'write_probe_desc', 'write_spike_times', 'write_spike_data',
          'write_spike_clusters', 'write_cluster_data', 'write_channel_data', 'write_channel_positions',
          'write_templates', 'write_template_data', 'write_misc']
+# sampling rates: whole numbers, a half, and a calibrated rate with many decimals (must be kept digit for digit)
+RATES = [1024.0, 2048.0, 1024.5, 30000.285714285714]
 TSV = {'Amplitude': 'cluster_Amplitude.tsv', 'ContamPct': 'cluster_ContamPct.tsv',
        'KSLabel': 'cluster_KSLabel.tsv'}
 
@@ -30,7 +32,10 @@ def make_probe(rng, k, shared, variant, allow_empty=True):
     empty = [nt - 1] if ((variant + k) % 3 == 0 and allow_empty) else []         # the highest template owns no spike
     ds = D.random_dense(rng, ns=ns, nt=nt, nc=nc, nsw=shared['nsw'], rate=shared['rate'],
                         whitening='monomial' if shared['wm'][k] else 'none', empty_templates=empty)
-    ds['samples'] = np.sort(rng.randint(0, shared['tmax'], size=ns)) + shared.get('tbase', 0)   # ties within and across probes
+    ds['samples'] = np.sort(rng.randint(0, shared['tmax'], size=ns))         # ties within and across probes
+    if shared.get('tbase'):
+        # a long session: the later half of the spikes a billion samples after the first half
+        ds['samples'][ns // 2:] += shared['tbase']
     if (variant + k) % 2 == 0:
         # a channel map with gaps that need not start at 0 (raw file with more channels than the map)
         ds['ncdat'] = nc + int(rng.randint(1, 5))
@@ -80,7 +85,7 @@ def make_probe(rng, k, shared, variant, allow_empty=True):
                nch=nc, ntm=nt, chmap=as_list(ds['chmap']), pcind=as_list(ds['pcind']), tfind=as_list(ds['tfind']),
                posx=ints(pos[:, 0]), posy=ints(pos[:, 1]), T=ints(ds['T']),
                wm=ints(ds['wm'], 4) if shared['wm'][k] else [], wmi=ints(ds['wmi_eff'], 4) if shared['wm'][k] else [],
-               sim=ints(ds['sim']) if shared['sim'][k] else [], tsv=tsv_rec, rate=int(round(2 * shared['rate'])),
+               sim=ints(ds['sim']) if shared['sim'][k] else [], tsv=tsv_rec, rate=RATES.index(shared['rate']) + 1,
                ncdat=int(ds.get('ncdat') or nc))
     return ds, tsv, rec
 
@@ -101,7 +106,7 @@ def merge_once(ctx, d, rng, variant):
     from phylib.utils._misc import read_python
     K = int(rng.choice([1, 2, 3, 3, 4]))
     p_all = rng.rand() < 0.6
-    shared = dict(nsw=int(rng.randint(2, 4)), rate=[1024, 2048, 1024.5][variant % 3], tmax=int(rng.choice([3, 8, 40])),
+    shared = dict(nsw=int(rng.randint(2, 4)), rate=RATES[variant % 4], tmax=int(rng.choice([3, 8, 40])),
                   wm=[p_all or rng.rand() < 0.5 for _ in range(K)], sim=[p_all or rng.rand() < 0.5 for _ in range(K)],
                   ind_dtype=[np.uint32, np.int32, np.int64][variant % 3], tsv_p=[1.0, 0.5, 0.0][variant % 3],
                   zero_x=[(variant % 7 == 3) and k < K - 1 for k in range(K)],
@@ -168,7 +173,8 @@ def merge_once(ctx, d, rng, variant):
                wm=[] if wm is None else ints(wm, 4), wmi=[] if wmi is None else ints(wmi, 4),
                sim=[] if sim is None else ints(sim),
                tsv={name: read_tsv_pairs(out_dir / fn) for name, fn in TSV.items()},
-               rate=int(round(2 * float(params['sample_rate']))) if float(2 * params['sample_rate']).is_integer() else -1,
+               # (the sampling rate as a token: its position in RATES if the merged value is EXACTLY one of them, else 0)
+               rate=(RATES.index(float(params['sample_rate'])) + 1) if float(params['sample_rate']) in RATES else 0,
                ncdat=int(params['n_channels_dat']))
     zero_x_before = [k for k in range(K - 1) if len(set(recs[k]['posx'])) == 1]
     return dict(probes=recs, steps=steps, out=out, inputsUnchanged=before == after, modelOk=bool(model_ok),
